@@ -301,6 +301,7 @@ func main() {
 	structural(pkgs)
 	indexSites(pkgs)
 	ixBodies(pkgs)
+	caseMapSites(pkgs)
 	if p := pkgs["cors"]; p != nil {
 		icfgWrites(p)
 	}
